@@ -920,7 +920,7 @@ func (e *Engine) sweep(ps *PropertySpec, done map[string]*FuncGen) ([]*FuncGen, 
 				if thin {
 					var keep []*Obligation
 					for _, o := range g.obls {
-						if strings.HasPrefix(o.Kind, "safe.") || (o.Kind == "pre" && strings.Contains(o.Desc, "[inferred]")) {
+						if strings.HasPrefix(o.Kind, "safe.") || strings.HasPrefix(o.Kind, "cover.") || (o.Kind == "pre" && strings.Contains(o.Desc, "[inferred]")) {
 							keep = append(keep, o)
 						}
 					}
